@@ -17735,7 +17735,8 @@ class HFSM2_EMPTY_BASES InstanceT<
 							>
 						  , TApex
 						> final
-	: public			RC_<
+	: public			RNGT<TUtility>
+	, public			RC_<
 							G_<
 								NFeatureTag
 							  , TContext
@@ -17750,7 +17751,6 @@ class HFSM2_EMPTY_BASES InstanceT<
 							>
 						  , TApex
 						>
-	, public			RNGT<TUtility>
 {
 	using Base =		RC_<
 							G_<
@@ -17780,10 +17780,10 @@ public:
 public:
 	HFSM2_CONSTEXPR(14)	explicit InstanceT(Context& context
 										 HFSM2_IF_LOG_INTERFACE(, Logger* const logger = nullptr))	noexcept
-		: Base{context
+		: RNGT<TUtility>{0}
+		, Base{context
 			 , static_cast<RNGT<TUtility>&>(*this)
 			 HFSM2_IF_LOG_INTERFACE(, logger)}
-		, RNGT<TUtility>{0}
 	{}
 };
 
@@ -17819,7 +17819,8 @@ class HFSM2_EMPTY_BASES InstanceT<
 							>
 						  , TApex
 						> final
-	: public			RC_<
+	: public			RNGT<TUtility>
+	, public			RC_<
 							G_<
 								NFeatureTag
 							  , EmptyContext
@@ -17834,7 +17835,6 @@ class HFSM2_EMPTY_BASES InstanceT<
 							>
 						  , TApex
 						>
-	, public RNGT<TUtility>
 {
 	using Base =		RC_<
 							G_<
@@ -17861,9 +17861,9 @@ public:
 
 public:
 	HFSM2_CONSTEXPR(14)	explicit InstanceT(HFSM2_IF_LOG_INTERFACE(Logger* const logger = nullptr))	noexcept
-		: Base{static_cast<RNGT<TUtility>&>(*this)
+		: RNGT<TUtility>{0}
+		, Base{static_cast<RNGT<TUtility>&>(*this)
 			 HFSM2_IF_LOG_INTERFACE(, logger)}
-		, RNGT<TUtility>{0}
 	{}
 };
 
